@@ -47,8 +47,10 @@ def same_case(inp):
     if inp["what"] == "aam-validation":
         from synkit.Chem.Reaction.aam_validator import AAMValidator
         data = inp["data"]
-        a = AAMValidator.validate_smiles(data, ground_truth_col="gt", mapped_cols=["m1", "m2"], check_method="RC", n_jobs=1)
-        b = AAMValidator.validate_smiles(data, ground_truth_col="gt", mapped_cols=["m1", "m2"], check_method="RC", n_jobs=4)
+        kw = dict(ground_truth_col="gt", mapped_cols=["m1", "m2"], check_method=inp.get("method", "RC"),
+                  ignore_aromaticity=inp.get("ignore_aromaticity", False), ignore_tautomers=inp.get("ignore_tautomers", True))
+        a = AAMValidator.validate_smiles(data, n_jobs=1, **kw)
+        b = AAMValidator.validate_smiles(data, n_jobs=4, **kw)
         f = lambda res: [[str(x["mapper"]), [bool(v) for v in x["results"]]] for x in res]
         return {"kind": "same", "what": inp["what"], "a": f(a), "b": f(b)}
     if inp["what"] == "balance-check":
@@ -135,7 +137,17 @@ def run(ctx: core.Ctx) -> None:
             m1, _ = chem.renumber_aam(s, rng)
             bad = rng.choice(sample)
             data.append({"gt": s, "m1": m1, "m2": bad})
-        same.append({"what": "aam-validation", "data": data})
+        # records whose verdict depends on the tautomer / aromaticity flags (carboxylic oxygens exchanged)
+        data.append({"gt": "[CH3:1][C:2](=[O:3])[OH:4].[CH3:5][CH2:6][OH:7]>>[CH3:1][C:2](=[O:3])[O:7][CH2:6][CH3:5].[OH2:4]",
+                     "m1": "[CH3:1][C:2](=[O:3])[OH:4].[CH3:5][CH2:6][OH:7]>>[CH3:1][C:2](=[O:4])[O:7][CH2:6][CH3:5].[OH2:3]",
+                     "m2": "[CH3:1][C:2](=[O:3])[OH:4].[CH3:5][CH2:6][OH:7]>>[CH3:1][C:2](=[O:3])[O:7][CH2:6][CH3:5].[OH2:4]"})
+        data.append({"gt": "[CH3:1][C:2](=[O:3])[OH:4].[CH3:5][OH:6]>>[CH3:1][C:2](=[O:3])[O:6][CH3:5].[OH2:4]",
+                     "m1": "[CH3:1][C:2](=[O:3])[OH:4].[CH3:5][OH:6]>>[CH3:1][C:2](=[O:4])[O:6][CH3:5].[OH2:3]",
+                     "m2": "[CH3:5][C:1](=[O:2])[OH:3].[CH3:6][OH:4]>>[CH3:5][C:1](=[O:2])[O:4][CH3:6].[OH2:3]"})
+        for ia in (False, True):
+            for it in (True, False):
+                same.append({"what": "aam-validation", "data": data, "ignore_aromaticity": ia, "ignore_tautomers": it,
+                             "method": rng.choice(["RC", "ITS"])})
         bal = [{"reactions": s} for s in sample] + [{"reactions": s.split(">>")[0] + ">>" + s.split(">>")[1].split(".")[0]} for s in sample[:8]]
         same.append({"what": "balance-check", "data": bal})
     tb = {t["name"]: t["rsmi"] for t in reactlib.textbook()}
